@@ -347,7 +347,15 @@ var $select = comms => {
 
     var entries = [];
     var thisGoroutine = $curGoroutine;
-    var f = { $blk() { return this.selection; } };
+    var f = {
+        $blk() {
+            if (this.closedDuringSend) {
+                /* The channel was closed while this select was blocked in a send case: panic in the selecting goroutine. */
+                $throwRuntimeError("send on closed channel");
+            }
+            return this.selection;
+        }
+    };
     var removeFromQueues = () => {
         for (var i = 0; i < entries.length; i++) {
             var entry = entries[i];
@@ -372,10 +380,8 @@ var $select = comms => {
                     comm[0].$recvQueue.push(queueEntry);
                     break;
                 case 2: /* send */
-                    var queueEntry = () => {
-                        if (comm[0].$closed) {
-                            $throwRuntimeError("send on closed channel");
-                        }
+                    var queueEntry = closed => {
+                        f.closedDuringSend = closed;
                         f.selection = [i];
                         removeFromQueues();
                         $schedule(thisGoroutine);
